@@ -130,7 +130,7 @@ def finish(m, prop, tier, seed, results, wall, verbose=False):
     for i, r in enumerate(viol):
         path = os.path.join(EVID, "replays", "%s-%d.json" % (prop, i))
         with open(path, "w") as fh:
-            json.dump(dict(property=prop, obligation=r["obligation"], model=r.get("model"), replay=r.get("replay"), detail=r.get("detail"), exception=r.get("exception")), fh, indent=1)
+            json.dump(dict(property=prop, obligation=r["obligation"], scenario=r.get("scenario"), params=r.get("params"), model=r.get("model"), replay=r.get("replay"), detail=r.get("detail"), exception=r.get("exception")), fh, indent=1)
         r["replay_file"] = path
     for fk, rs in sorted(knownhits.items()):
         print("KNOWN-FINDING: property=%s %s -- %s (%d obligations, e.g. %s)" % (prop, fk, open_keys[fk].get("what", ""), len(rs), rs[0]["obligation"]))
@@ -213,23 +213,30 @@ def _z3v():
     return z3.get_version_string()
 
 
+def _tuplify(x):
+    if isinstance(x, list):
+        return tuple(_tuplify(v) for v in x)
+    if isinstance(x, dict):
+        return {(int(k) if isinstance(k, str) and k.lstrip("-").isdigit() else k): _tuplify(v) for k, v in x.items()}
+    return x
+
+
 def replay_file(m, path):
-    """re-run a stored counterexample against the real package"""
+    """re-run a stored counterexample against the real package (current /repo working tree)"""
     with open(path) as fh:
         d = json.load(fh)
-    print(json.dumps(d, indent=1)[:4000])
-    ob = d["obligation"].split("/")
-    jobname = ob[1]
     from symexec.engine import Prover
 
-    P = Prover(d["property"], jobname, "quick", 0)
-    P.replay_env = d.get("model") or {}
-    # re-running the job re-derives the scenario; the stored model is replayed by the engine
-    for jn, fn, kw in m.jobs("quick") + m.jobs("thorough"):
-        if jn == jobname:
-            getattr(m, fn)(P, **kw)
-            break
-    bad = [r for r in P.records if r["verdict"] == "sat" and (r.get("replay") or {}).get("reproduced")]
-    for r in bad:
-        print("REPRODUCED %s: %s" % (r["obligation"], r["replay"].get("detail")))
-    return 1 if bad else 0
+    modname, fname = d["scenario"].split(":")
+    sc = getattr(importlib.import_module(modname), fname)
+    params = {k: _tuplify(v) for k, v in (d.get("params") or {}).items()}
+    env = (d.get("replay") or {}).get("inputs") or d.get("model") or {}
+    P = Prover(d["property"], "replay", "quick", 0)
+    key = (d.get("replay") or {}).get("key")
+    rp = P._replay(sc, params, env, key, None)
+    print(json.dumps(dict(obligation=d["obligation"], scenario=d["scenario"], params=d.get("params"), result=rp), indent=1)[:6000])
+    if rp.get("reproduced"):
+        print("REPRODUCED on the real code: %s" % rp.get("detail"))
+        return 1
+    print("not reproduced on the current tree: %s" % rp.get("detail"))
+    return 0
